@@ -200,7 +200,8 @@ def gen_ruler_history(rng):
             ops.append({"op": kind, "chain": rng.choice(CHAINS)})
         elif kind in ("push", "before", "after", "at"):
             nfn += 1
-            o = {"op": kind, "name": name if kind == "at" else rng.choice(names[:5]), "fn": nfn,
+            # (one function object may serve several rule names - shared helpers, a no-op - so now and then an earlier one is reused)
+            o = {"op": kind, "name": name if kind == "at" else rng.choice(names[:5]), "fn": nfn if rng.random() < 0.75 else rng.randint(1, nfn),
                  "alt": rng.choice([None, [], ["p"], ["q"], ["p", "q"], ["p", "p"], ["q", "p", "q"], [""], ["", "p"]])}
             if kind in ("before", "after"):
                 o["ref"] = rng.choice(names)
